@@ -1022,6 +1022,21 @@ def judge_typed_budget(ctx, cfg):
             ctx.distinct_nontrivial += 1
     return v
 
+def judge_big_raw_buffers(ctx):
+    """raw_value build (side configuration): a RawValue of 1 .. 70 000 bytes of multi-byte characters reaches the writer as ONE buffer; every buffer of the
+    serialiser is valid UTF-8 on its own (direct check inside sjh_raw `rbig`)"""
+    v = []
+    for cfg in [c for c in list(ctx.cfgs) + list(getattr(ctx, 'side_cfgs', [])) if 'raw_value' in engine.CONFIGS[c][0]]:
+        lines = ['rbig %d %s' % (n, u) for n in (3, 100, 4094, 4095, 4096, 4097, 4098, 6002, 8191, 8192, 8193, 12288, 65535, 65536, 70000) for u in ('c3a9', 'e298ba', 'f09f9880', '61c3a9', '78')]
+        outs = ctx.impl(cfg, lines, name='sjh_raw')
+        for l, o in zip(lines, outs):
+            if o != 'ok':
+                v.append({'what': 'raw-value-buffers', 'cfg': cfg, 'line': l, 'expected': 'ok (one buffer for the raw text, every buffer valid UTF-8, expected output)', 'actual': o[:300], 'shrinkable': False})
+            else:
+                ctx.distinct_nontrivial += 1
+        ctx.count('big-raw-value-buffer-checks', len(lines))
+    return v
+
 def run_c13(ctx):
     ctx.rule = ('reader side: for generated documents (valid and invalid) a reader that fails persistently with each of several ErrorKinds once k bytes were delivered, '
                 'for every k in 0..=len, under chunkings 1/3/64/pseudo-random with Interrupted interleaved (all must agree), Value and IgnoredAny targets; outcome must equal '
@@ -1042,7 +1057,8 @@ def run_c13(ctx):
         ctx.violations += writer_faults(ctx, cfg)
         for d in docs[:4]:
             ctx.sample({'op': 'io', 'cfg': cfg, 'doc_hex': hx(d), 'fail_at': 'every k in 0..=len', 'kinds': 'TimedOut, BrokenPipe, ...'})
-    for cfg in [c for c in getattr(ctx, 'side_cfgs', []) if c not in ctx.cfgs]:
+    ctx.violations += judge_big_raw_buffers(ctx)
+    for cfg in [c for c in getattr(ctx, 'side_cfgs', []) if c not in ctx.cfgs and c == 'ap']:
         # arbitrary_precision side configuration: numbers of untyped targets go through the textual scanner (scan_integer / scan_decimal / scan_exponent)
         ndocs = [b'2e17 ', b'[1024, 7]', b'31e2', b'-0.5E-3', b'{"a":1.25e+10,"b":[12345678901234567890123, 0.000001]}', b'[1,2.5,3e5]', b'1.', b'1e', b'-']
         ndocs += [x for x in gen.number_literals(ctx.rng, 40)[::97] if len(x) < 40][:40]
@@ -1394,6 +1410,7 @@ def run_c19(ctx):
         ctx.violations += judge_c19_raw(ctx, cfg, rd)
         ctx.violations += judge_c19_driven(ctx, cfg, rd)
         ctx.violations += judge_c19_rawde(ctx, cfg)
+    ctx.violations += judge_big_raw_buffers(ctx)
 
 PARSER_TB = ['modelled, not verified: std::io::Bytes (one-byte reads, Interrupted retried), memchr, str::from_utf8, BTreeMap/IndexMap insert, rustc float literal parsing (POW10), IEEE arithmetic of f64 (Flocq model)',
              'the three readers are abstracted to one cursor (rest, off, peeked) — tied by running str/slice/reader sources with chunk schedules']
@@ -1404,6 +1421,6 @@ register('C09', cfgs={'quick': ['def'], 'thorough': ['def', 'raw', 'ap', 'fr', '
 register('C10', cfgs={'quick': ['def', 'raw'], 'thorough': ['def', 'raw', 'ap']}, side_cfgs=['ap', 'fr'], run=run_c10, judge=None, extended=run_c10, trusted_base=PARSER_TB)
 register('C11', cfgs={'quick': ['def'], 'thorough': ['def']}, side_cfgs=['ap', 'fr'], run=run_c11, judge=judge_c11, extended=run_c11, trusted_base=PARSER_TB)
 register('C12', cfgs={'quick': ['def'], 'thorough': ['def']}, side_cfgs=['fr', 'ap', 'ud'], run=run_c12, judge=judge_c12, extended=run_c12, trusted_base=PARSER_TB)
-register('C13', cfgs={'quick': ['def'], 'thorough': ['def']}, side_cfgs=['ap'], run=run_c13, judge=None, extended=run_c13, trusted_base=PARSER_TB)
+register('C13', cfgs={'quick': ['def'], 'thorough': ['def']}, side_cfgs=['ap', 'raw'], run=run_c13, judge=None, extended=run_c13, trusted_base=PARSER_TB)
 register('C14', cfgs={'quick': ['def'], 'thorough': ['def', 'ud']}, side_cfgs=['ud', 'fr'], run=run_c14, judge=judge_c14, extended=run_c14, trusted_base=PARSER_TB)
 register('C19', cfgs={'quick': ['raw'], 'thorough': ['raw', 'rawpofr']}, run=run_c19, judge=judge_c19, extended=run_c19, trusted_base=PARSER_TB)
